@@ -911,13 +911,14 @@ theorem matrixPackOk_of_struct {d : Doc} (hs : StructOk d) {pi : Nat} (hp : (d.p
 /-- which allocation pack a pattern of `_PackAllocator.packs` is -/
 inductive PatOk (d : Doc) : Pattern → Prop
   | regular (pi : Nat) : pi < d.packs.length → (d.pack pi).type ≠ .matrix →
-      PatOk d ⟨pi, false, packChannels d pi⟩
+      PatOk d ⟨pi, false, packChannels d pi, packPathsOf d pi⟩
   | matrixInput (pi ip : Nat) (t : MType) : (d.pack pi).type = .matrix → typeOf (d.pack pi) = .ok t → t ≠ .encode →
-      inputPackOf (d.pack pi) = .ok ip → PatOk d ⟨pi, true, packChannels d ip⟩
+      inputPackOf (d.pack pi) = .ok ip → PatOk d ⟨pi, true, packChannels d ip, constPfs (packChannels d ip) pi⟩
   | matrixPre (pi : Nat) (t : MType) : (d.pack pi).type = .matrix → typeOf (d.pack pi) = .ok t → t ≠ .encode →
-      PatOk d ⟨pi, true, packChannels d pi⟩
+      PatOk d ⟨pi, true, packChannels d pi, packPathsOf d pi⟩
   | matrixEncDec (pi e ii : Nat) : (d.pack pi).type = .matrix → typeOf (d.pack pi) = .ok .decode →
-      (d.pack pi).encodePacks = [e] → (d.pack e).input = some ii → PatOk d ⟨pi, true, packChannels d ii⟩
+      (d.pack pi).encodePacks = [e] → (d.pack e).input = some ii →
+      PatOk d ⟨pi, true, packChannels d ii, constPfs (packChannels d ii) e⟩
 
 theorem decode_encode_input {d : Doc} {pi : Nat} (hm : MatrixPackOk d pi) (ht : typeOf (d.pack pi) = .ok .decode) :
     ∃ e ii, (d.pack pi).encodePacks = [e] ∧ unpack1 (d.pack pi).encodePacks = .ok e ∧
@@ -1052,7 +1053,7 @@ theorem renderingItems_matrix_noInt {d : Doc} {extra : R Unit} (hx : NoInt extra
     (hs : StructOk d) (hu : uniquePaths d = true) {pi : Nat} {alloc : List Nat} {t : MType}
     (hp : (d.pack pi).type = .matrix) (ht : typeOf (d.pack pi) = .ok t) (hne : t ≠ .encode)
     (hres : ∀ mc ∈ (d.pack pi).channels, ResN d alloc 2 mc) :
-    NoInt (renderingItems d extra ⟨pi, true, alloc⟩) := by
+    NoInt (renderingItems d extra ⟨pi, true, alloc, pfs⟩) := by
   have hm := matrixPackOk_of_struct hs hp
   obtain ⟨o, hout⟩ := hm.outputs t ht hne
   have hpm : d.pack pi ∈ d.packs := getD_mem default (lt_of_pack_matrix hp)
@@ -1234,74 +1235,5 @@ theorem avsSelected_noInt {d : Doc} (hs : StructOk d) (hown : d.avsOwned = true)
     have hP := forE_ok hs.avs _ hPm
     refine avsAssertLoop_noInt _ _ none (fun _ => ?_) (fun h => absurd rfl h)
     exact avs_refs_unique hown hP (contentObjects_sub_programme hc _ hO) hc
-
-/-- allocator oracle returns allocation packs of the allocator (`allocate_packs` only returns packs it was given) -/
-def OracleScoped (pats : List Pattern) (oracle : Oracle) : Prop :=
-  ∀ i sols, oracle i = some sols → ∀ sol ∈ sols, ∀ k ∈ sol, k < pats.length
-
-theorem processState_tracksOk {d : Doc} (hw : d.wellScoped = true) (hs : StructOk d) (st : State)
-    (hv : forE (selectedOf d st).2.1 (validateSelectedTrack d) = .ok ()) :
-    ∀ t ∈ (selectedOf d st).2.1, TrackOk d t := fun t ht =>
-  validateSelectedTrack_ok (forE_ok hv t ht) (trackRefsOk_of_valid hw hs (selectedOf_tracks_lt hw st t ht))
-
-/-- `select_pack_mapping` + `_get_rendering_items` for one state raise only `AdmError` -/
-theorem processState_noInt {d : Doc} {pats : List Pattern} {oracle : Oracle} (hw : d.wellScoped = true)
-    (hs : StructOk d) (hpats : ∀ pat ∈ pats, PatOk d pat)
-    (ho : OracleScoped pats oracle) (hu : uniquePaths d = true) (i : Nat) (st : State)
-    (hx : NoInt (avsSelected d st)) : NoInt (processState d pats oracle i st) := by
-  have hlt := selectedOf_tracks_lt hw st
-  have hok := processState_tracksOk hw hs st
-  unfold processState
-  rcases hsel : selectedOf d st with ⟨packs, tracks, n⟩
-  rw [hsel] at hlt hok
-  simp only at hlt hok ⊢
-  have hrefs : ∀ t ∈ tracks, TrackRefsOk d t := fun t ht => trackRefsOk_of_valid hw hs (hlt t ht)
-  intro k hk
-  split at hk
-  · rename_i e he; injection hk with hk; subst hk
-    exact forE_noInt (fun t ht => validateSelectedTrack_noInt (hrefs t ht)) k he
-  · rename_i hv
-    have hto := hok hv
-    split at hk
-    · rename_i e he; injection hk with hk; subst hk
-      exact mapE_noInt (fun t ht => channelForTrack_noInt (hrefs t ht)) k he
-    · split at hk
-      · cases hk
-      · exact raiseError_noInt hto k hk
-      · rename_i sol hor
-        split at hk
-        · rename_i e he; injection hk with hk; subst hk
-          exact mapE_noInt (fun t ht => trackSpec_noInt (hto t ht)) k he
-        · refine sumE_noInt (l := sol) ?_ 0 k hk
-          intro _ p hp
-          exact renderingItems_noInt hx hw hs hu (hpats _ (getD_mem default (ho i _ hor sol (by simp) p hp)))
-      · exact raiseError_noInt hto k hk
-
-theorem processState_conflicting_never_items {d : Doc} {pats : List Pattern} {oracle : Oracle} {i : Nat}
-    {st : State} (ho : oracle i = some []) : ∀ m, processState d pats oracle i st ≠ .ok m := by
-  intro m hk
-  unfold processState at hk
-  rcases hsel : selectedOf d st with ⟨packs, tracks, n⟩
-  rw [hsel] at hk
-  simp only [ho] at hk
-  split at hk
-  · cases hk
-  · split at hk
-    · cases hk
-    · exact raiseError_not_ok hk
-
-theorem processState_ambiguous_never_items {d : Doc} {pats : List Pattern} {oracle : Oracle} {i : Nat}
-    {st : State} {s1 s2 : List Nat} {rest : List (List Nat)}
-    (ho : oracle i = some (s1 :: s2 :: rest)) : ∀ m, processState d pats oracle i st ≠ .ok m := by
-  intro m hk
-  unfold processState at hk
-  rcases hsel : selectedOf d st with ⟨packs, tracks, n⟩
-  rw [hsel] at hk
-  simp only [ho] at hk
-  split at hk
-  · cases hk
-  · split at hk
-    · cases hk
-    · exact raiseError_not_ok hk
 
 end Earverif.Validate
